@@ -154,4 +154,183 @@ theorem ether_refinesL (c : Cur) (g : Mem) (hg : ByteMem g) (n et o l : Nat) (ct
     rw [walkN_next true g k' _ _ _ _ _ _ (by simp) hstep, walkN_done]
     exact relLaxW_of (relLax_ok hst)
 
+/-- no stop layer names the Ethernet II header: a lax result with a stop error has its fault elsewhere -/
+theorem stopLayer_not_eth (ly : Layer) : ¬ StopLayer ly .eth := by
+  cases ly <;> simp [StopLayer]
+
+theorem relLaxW_fault_not_eth {g : Mem} {m : Packet} {s : Packet × Option Fault} (h : RelLaxW g m s) (f : Fault)
+    (hf : s.2 = some f) : f.unit ≠ .eth := by
+  obtain ⟨_, h2⟩ := h
+  rw [hf] at h2
+  cases hm : m.stop with
+  | none => rw [hm] at h2; exact absurd h2 (by simp)
+  | some x =>
+    obtain ⟨e, ly⟩ := x
+    rw [hm] at h2
+    simp only at h2
+    rcases h2 with h2 | h2
+    · intro hu
+      exact stopLayer_not_eth ly (hu ▸ h2.1)
+    · rw [h2.2.2.1]; simp
+
+/-- `LaxSlicedPacket::from_ether_type` against the lax wire-format walk -/
+theorem lax_from_ether_type_refinesW (g : Mem) (hg : ByteMem g) (et n : Nat) :
+    RelLaxW g (laxSlicedFromEtherType g et n)
+      (walkN true g maxSteps (startPacket n (.etherType et)) (.ether et) (ctx0 n)) := by
+  unfold laxSlicedFromEtherType
+  exact ether_refinesL _ g hg 3 et 0 n (ctx0 n) maxSteps ⟨rfl, rfl, by simp [ctx0], Or.inl rfl⟩ rfl
+    (by simp [ctx0]) (by simp [maxSteps])
+
+theorem lax_from_ether_type_refines (g : Mem) (hg : ByteMem g) (et n : Nat)
+    (hnw : ¬ ShortV4Fault (walkN true g maxSteps (startPacket n (.etherType et)) (.ether et) (ctx0 n))) :
+    RelLax (laxSlicedFromEtherType g et n)
+      (walkN true g maxSteps (startPacket n (.etherType et)) (.ether et) (ctx0 n)) :=
+  relLax_of_W (lax_from_ether_type_refinesW g hg et n) hnw
+
+/-- `LaxSlicedPacket::from_ethernet`: `Err` exactly when the walk faults at the Ethernet II header -/
+theorem lax_from_ethernet_refinesW (g : Mem) (hg : ByteMem g) (n : Nat) :
+    match laxSlicedFromEthernet g n with
+    | .error e =>
+      ∃ f, walkN true g maxSteps Packet.empty .eth (ctx0 n) = (Packet.empty, some f) ∧ f.unit = .eth ∧ LenMatch e f
+    | .ok m =>
+      RelLaxW g m (walkN true g maxSteps Packet.empty .eth (ctx0 n)) ∧
+        ∀ f, (walkN true g maxSteps Packet.empty .eth (ctx0 n)).2 = some f → f.unit ≠ .eth := by
+  unfold laxSlicedFromEthernet eth2FromSlice
+  have hav : (ctx0 n).avail = n := by simp [ctx0, Ctx.avail]
+  by_cases h : n < 14
+  · simp only [h, if_true]
+    have hstep : Spec.step true g Packet.empty .eth (ctx0 n) =
+        ⟨Packet.empty, .done, ctx0 n, some (mkFault (ctx0 n) .cutShort .eth 14)⟩ := by
+      simp [Spec.step, hav, h]
+    rw [show maxSteps = 11 + 1 from rfl, walkN_fault true g 11 _ _ _ _ _ _ _ (by simp) hstep]
+    refine ⟨_, rfl, rfl, ?_⟩
+    refine ⟨by simp [mkFault], by simp [mkFault, LayerUnit], by simp [mkFault, ctx0],
+      by simp [mkFault, hav], by simp [mkFault], by simp [mkFault]⟩
+  · simp only [h, if_false]
+    have hstep : Spec.step true g Packet.empty .eth (ctx0 n) =
+        ⟨Packet.empty.setLink (.eth2 ⟨0, n⟩), .ether (g16 g 12), { ctx0 n with off := 14 }, none⟩ := by
+      have hav' : ({ off := 0, stop := n, lim := LenSource.slice, nExt := 0 } : Ctx).avail = n := hav
+      simp [Spec.step, hav', h, setLink_eq, ctx0]
+    rw [show maxSteps = 11 + 1 from rfl, walkN_next true g 11 _ _ _ _ _ _ (by simp) hstep]
+    have key := ether_refinesL { off := 14, src := .slice, r := Packet.empty.setLink (.eth2 ⟨0, n⟩) } g hg 3
+      (g16 g 12) 14 (n - 14) { ctx0 n with off := 14 } 11
+      ⟨rfl, rfl, by simp [ctx0]; omega, Or.inl rfl⟩ rfl (by simp [ctx0]) (by omega)
+    exact ⟨key, fun f hf => relLaxW_fault_not_eth key f hf⟩
+
+theorem fix_zero_slice (e : LenError) : (e.addOffset 0).srcIfSlice .slice = e := by
+  cases e with
+  | mk req len src layer off =>
+    unfold LenError.srcIfSlice LenError.addOffset LenError.withSrc
+    by_cases h : src = .slice <;> simp [h]
+
+/-- `parse_from_ip` is the cursor's `slice_ip` on a fresh cursor, except that an undecodable first
+    header is returned as `Err` -/
+theorem laxSlicedFromIp_eq (g : Mem) (n : Nat) :
+    match laxIpSliceFromSlice g 0 n with
+    | .error e => laxSlicedFromIp g n = .error e
+    | .ok _ => laxSlicedFromIp g n = .ok (Cur.new.laxSliceIp g 0 n) := by
+  unfold laxSlicedFromIp
+  cases h : laxIpSliceFromSlice g 0 n with
+  | error e => rfl
+  | ok r =>
+    simp only
+    rw [laxSliceIp_ok Cur.new g 0 n r h]
+    obtain ⟨ip, stop⟩ := r
+    unfold laxIpCont
+    cases stop with
+    | none =>
+      simp only [Cur.new, Nat.zero_add, Nat.sub_zero]
+      unfold Cur.laxSliceTransport
+      rfl
+    | some x =>
+      obtain ⟨e, ly⟩ := x
+      cases e with
+      | len le =>
+        simp only [Cur.new, fix_zero_slice]
+        rw [laxSliceTransport_stopped _ g ip.pl rfl]
+      | _ => exact congrArg _ (laxSliceTransport_stopped _ g ip.pl rfl)
+theorem laxSliceTransport_net (c : Cur) (g : Mem) (pl : IpPl) : (c.laxSliceTransport g pl).net = c.r.net := by
+  unfold Cur.laxSliceTransport
+  simp only
+  repeat' split
+  all_goals rfl
+
+theorem laxIpCont_net (c : Cur) (g : Mem) (o : Nat) (r : IpR × Option (PErr × Layer)) :
+    (laxIpCont c g o r).net = some (.ip r.1) := by
+  obtain ⟨ip, stop⟩ := r
+  unfold laxIpCont
+  cases stop with
+  | none => simp only; rw [laxSliceTransport_net]; rfl
+  | some x =>
+    obtain ⟨e, ly⟩ := x
+    cases e <;> rfl
+
+theorem stopLayer_ipHeader (u : Unit_) :
+    StopLayer .ipHeader u ↔ (u = .ipAny ∨ u = .ipv4Header ∨ u = .ipv6Header) := by
+  cases u <;> simp [StopLayer]
+
+/-- `LaxSlicedPacket::from_ip` against the lax wire-format walk.  `Err` exactly when the first header
+    is undecodable (then the walk faults before any layer, at the IP header); the wrinkle is the one
+    of the strict `from_ip` (`ShortV4`). -/
+theorem lax_from_ip_refines (g : Mem) (hg : ByteMem g) (n : Nat) :
+    if g 0 / 16 = 4 ∧ 0 < n ∧ n < 20 then
+      (∃ e, laxSlicedFromIp g n = .error e ∧ ShortV4 g 0 n Cur.new e) ∧
+        walkN true g maxSteps Packet.empty .ipAny (ctx0 n) =
+          (Packet.empty, some (mkFault (ctx0 n) .cutShort .ipv4Header 20))
+    else
+      match laxSlicedFromIp g n with
+      | .error e =>
+        ∃ f, walkN true g maxSteps Packet.empty .ipAny (ctx0 n) = (Packet.empty, some f) ∧
+          (f.unit = .ipAny ∨ f.unit = .ipv4Header ∨ f.unit = .ipv6Header) ∧ ErrMatch e f
+      | .ok m => RelLax m (walkN true g maxSteps Packet.empty .ipAny (ctx0 n)) ∧ m.net.isSome := by
+  have ht : Tied Cur.new (ctx0 n) 0 n := ⟨rfl, rfl, by simp [ctx0], Or.inl rfl⟩
+  have heq := laxSlicedFromIp_eq g n
+  split
+  · rename_i hw
+    have hwalk : walkN true g maxSteps Packet.empty .ipAny (ctx0 n) =
+        (Packet.empty, some (mkFault (ctx0 n) .cutShort .ipv4Header 20)) :=
+      (ip_refinesL_short Cur.new g 0 n (ctx0 n) 9 ht hw).2
+    refine ⟨?_, hwalk⟩
+    have hm := laxIpSlice_v4 g 0 n hw.1 hw.2.1
+    by_cases hi : g 0 % 16 < 5
+    · simp only [hi, if_true] at hm
+      rw [hm] at heq
+      exact ⟨_, heq, Or.inl ⟨hi, rfl⟩⟩
+    · have hl : n < g 0 % 16 * 4 := by omega
+      simp only [hi, hl, if_true, if_false] at hm
+      rw [hm] at heq
+      exact ⟨_, heq, Or.inr ⟨by omega, rfl⟩⟩
+  · rename_i hnw
+    have h : RelLax (Cur.new.laxSliceIp g 0 n) (walkN true g maxSteps Packet.empty .ipAny (ctx0 n)) :=
+      ip_refinesL_main Cur.new g hg 0 n (ctx0 n) 9 ht rfl hnw
+    cases hd : laxIpSliceFromSlice g 0 n with
+    | error e =>
+      rw [hd] at heq
+      simp only at heq
+      rw [heq]
+      simp only
+      have hcur : Cur.new.laxSliceIp g 0 n = Packet.empty.setStop e .ipHeader := by
+        cases e with
+        | len le => rw [laxSliceIp_errLen Cur.new g 0 n le hd]; simp only [Cur.new, fix_zero_slice]
+        | _ => exact laxSliceIp_err Cur.new g 0 n _ hd (by simp)
+      rw [hcur] at h
+      obtain ⟨h1, h2⟩ := h
+      generalize walkN true g maxSteps Packet.empty .ipAny (ctx0 n) = s at *
+      obtain ⟨p, fo⟩ := s
+      cases fo with
+      | none => simp at h2
+      | some f =>
+        simp only [stop_setStop] at h2
+        have : p = Packet.empty := h1.symm
+        subst this
+        exact ⟨f, rfl, (stopLayer_ipHeader _).mp h2.1, h2.2⟩
+    | ok r =>
+      rw [hd] at heq
+      simp only at heq
+      rw [heq]
+      simp only
+      refine ⟨h, ?_⟩
+      rw [laxSliceIp_ok Cur.new g 0 n r hd, laxIpCont_net]
+      rfl
+
 end EpModel.Lemmas.RefineLax
